@@ -51,18 +51,22 @@ class _modules_copyable:
     context switches.
     """
 
+    __instance_lock__ = RLock()
+
     def __new__(cls, *args, **kwargs):
         """
         Make this class a singleton (there exists at most one instance).
         """
-        if not hasattr(cls, "__instance__"):
-            cls.__instance__ = super().__new__(cls, *args, **kwargs)
+        with cls.__instance_lock__:
+            if not hasattr(cls, "__instance__"):
+                instance = super().__new__(cls, *args, **kwargs)
+                # State is initialised exactly once, here, because `__init__`
+                # is re-run every time the singleton is looked up.
+                instance.lock = RLock()
+                instance.refcount = 0
+                instance.patched_table = False
+                cls.__instance__ = instance
         return cls.__instance__
-
-    def __init__(self):
-        self.lock = RLock()
-        self.refcount = 0
-        self.patched_table = False
 
     def __enter__(self):
         with self.lock:
